@@ -520,7 +520,20 @@ pub fn build_case(seed: u64, case: u64) -> Built {
     let nparams = rng.below(4) as usize;
     let nlocals = rng.below(6) as usize;
     let local_tys: Vec<ValType> = (0..nparams + nlocals).map(|_| *rng.pick(&tys)).collect();
-    let locals: Vec<(LocalId, ValType)> = local_tys.iter().map(|t| (module.locals.add(*t), *t)).collect();
+    // local ids are allocated in positional order in half of the cases and in a shuffled order in the
+    // other half (nothing says that a parameter's id is smaller than the next parameter's)
+    let mut alloc_order: Vec<usize> = (0..local_tys.len()).collect();
+    if case % 2 == 1 {
+        for i in (1..alloc_order.len()).rev() {
+            let j = rng.below(i as u64 + 1) as usize;
+            alloc_order.swap(i, j);
+        }
+    }
+    let mut slots: Vec<Option<(LocalId, ValType)>> = vec![None; local_tys.len()];
+    for pos in alloc_order {
+        slots[pos] = Some((module.locals.add(local_tys[pos]), local_tys[pos]));
+    }
+    let locals: Vec<(LocalId, ValType)> = slots.into_iter().map(|x| x.unwrap()).collect();
     let multi_ty = module.types.add(&[ValType::I32], &[ValType::I32]);
     let env = Env { locals: locals.clone(), nparams, globals: globals.clone(), helper, multi_ty };
     let env_locals: Vec<(usize, ValType)> = locals.iter().enumerate().map(|(k, l)| (k, l.1)).collect();
